@@ -310,8 +310,8 @@ def coverage(run, results, mm, ff, branch_count):
         'hand-written model Model/Registry.v + Model/RegistryExport.v tied to x/aggregate by this differential run (generator bounds '
         'what it sees; measured reach: coverage.branches_reached / branches_never_reached)',
         'translator tools/gotocoq/registry (go/parser): GetID operands, CreateDenom / CreateDenomDescription formats, Owner constants, '
-        'inventory of the functions that write the registry -> Gen/RegistryGen.v, obligations in Proofs/RegistrySource.v '
-        '(C12_source_tie, C12_real_getid_meets_oracles)',
+        'interprocedural write footprints of the exported functions under x/aggregate -> Gen/RegistryGen.v; generic lemmas in '
+        'Proofs/RegistrySource.v, one obligation file per item: Props/C12Source{GetID,Formats,Owners,Writers}.v',
         'oracles of the model: TokenPair.GetID (sha256) and Address.Hex (EIP-55) are tabulated from the real functions per case; '
         'theorems assume GetID injective ON HEX-ADDRESS TEXTS and non-empty (derived in Coq from collision-freedom of sha256 for the '
         'regenerated concatenation text|denom), HexToAddress(Address.Hex(a)) = a',
@@ -326,10 +326,34 @@ def coverage(run, results, mm, ff, branch_count):
         'MintingEnabled is modelled for sender == receiver, not a blocked address']
 
 
+# the tie to the source: one obligation file per regenerated item (an undetermined / harmfully changed item breaks its own
+# obligation only)
+SOURCE_MODULES = ['theories/Props/C12SourceGetID.v', 'theories/Props/C12SourceFormats.v',
+                  'theories/Props/C12SourceOwners.v', 'theories/Props/C12SourceWriters.v']
+
+
+def coqchk_source(run):
+    """thorough: the independent checker on the source-tie modules too (run.coqchk_stage covers Props/C12 + Refuted)"""
+    import re
+    mods = ['Teleport.Props.' + os.path.basename(m)[:-2] for m in SOURCE_MODULES
+            if os.path.exists(os.path.join(vlib.COQ, m[:-2] + '.vo'))]
+    if not mods:
+        return
+    with vlib.Lock('coq'):
+        rc, out = vlib.sh(['coqchk', '-silent', '-o', '-Q', vlib.THEORIES, 'Teleport'] + mods, cwd=vlib.COQ, timeout=2400)
+    m = re.search(r'\* Axioms:(.*?)\n\s*\n\* Constants', out, flags=re.S)
+    axioms = m.group(1).strip() if m else 'unparsed'
+    run.coverage['coqchk_source_tie'] = dict(modules=mods, rc=rc, axioms=axioms)
+    if rc != 0 or axioms != '<none>':
+        run.proof['build_ok'] = False
+        run.proof['build_log'] += '\n[coqchk source tie]\n' + out[-2000:]
+
+
 def check(run):
-    pr = run.proof_stage()
+    pr = run.proof_stage(extra_modules=SOURCE_MODULES)
     if not run.quick():
         run.coqchk_stage()
+        coqchk_source(run)
     ok, out = vlib.build_harness(['c12'])
     if not ok:
         run.violation(dict(kind='harness-build-failed', log=out[-3000:],
